@@ -360,9 +360,20 @@ Example C16_ex_mailmap :
         [[124; 99; 64; 120; 124; 112; 64; 120]; [97; 108; 124; 97; 64; 120]]).
 Proof. split; vm_compute; reflexivity. Qed.
 
-(* ParseMailmap: "P N <p@x> C N <c@x>" gives two entries; a line that ends in ">" without "<" panics *)
+(* ParseMailmap (as repaired by 199beb1) returns for every text; before the repair it panicked on "a>" and on
+   "N > <c@x>" (finding mailmap-parse-panic, fixed) *)
+Theorem C16_parse_mailmap_returns : forall s, exists mm, parse_mailmap s = Some mm.
+Proof. exact parse_mailmap_total. Qed.
+Print Assumptions C16_parse_mailmap_returns.
+
+Theorem C16_parse_mailmap_before_fix_refuted : parse_mailmap_before_fix [97; 62] = None /\
+  parse_mailmap_before_fix [78; 32; 62; 32; 60; 99; 64; 120; 62] = None.
+Proof. exact parse_mailmap_before_fix_panics. Qed.
+Print Assumptions C16_parse_mailmap_before_fix_refuted.
+
+(* "P N <p@x> C N <c@x>" gives two entries; a line that ends in ">" without "<" is skipped *)
 Example C16_ex_parse :
   parse_mailmap [80; 32; 78; 32; 60; 112; 64; 120; 62; 32; 67; 32; 78; 32; 60; 99; 64; 120; 62; 10; 35; 32; 120; 10] =
   Some [([99; 64; 120], ([80; 32; 78], [112; 64; 120])); ([67; 32; 78], ([80; 32; 78], [112; 64; 120]))]
-  /\ parse_mailmap [97; 62] = None.
+  /\ parse_mailmap [97; 62] = Some [].
 Proof. split; vm_compute; reflexivity. Qed.
